@@ -213,6 +213,9 @@ C12(o) ==
                 ELSE IF \E order \in AEOrders(st) : \E co \in AECritOrders(st) :
                           AEMatches(AERanking(AERun(AEInit(order), AECtx(st, levels, co))), obs)
                 THEN {} ELSE {Fail("C12", "reference", "")})
+          \cup (IF \A k \in DOMAIN obs : DOMAIN obs[k].thr = {} \/
+                      \E li \in DOMAIN levels : \A c \in DOMAIN obs[k].thr : c \in DOMAIN levels[li] /\ obs[k].thr[c] = levels[li][c]
+                THEN {} ELSE {Fail("C14", "reported-threshold-not-a-level-of-the-series", "")})
           \cup (IF SequentialLinksOK(res) THEN {} ELSE {Fail("DRIFT", "aspect-links", "")})
 
 (* ---- C13: satisfaction heuristic ---- *)
@@ -261,6 +264,9 @@ C13(o) ==
                 ELSE IF \E order \in SOrders(st) :
                           SMatches(SRanking(SRun(SInit(order), ctx), ctx), obs, nlev)
                 THEN {} ELSE {Fail("C13", "reference", "")})
+          \cup (IF \A k \in DOMAIN obs : obs[k].level >= nlev \/ \E li \in DOMAIN levels : SameMap(obs[k].thr, levels[li])
+                THEN {} ELSE {Fail("C14", "reported-threshold-not-a-level-of-the-series", "")})
+          \cup (IF \E k \in DOMAIN obs : obs[k].level > nlev THEN {Fail("C14", "more-levels-than-the-series-has", "")} ELSE {})
           \cup (IF SequentialLinksOK(res) THEN {} ELSE {Fail("DRIFT", "satisfaction-links", "")})
 
 
